@@ -762,7 +762,8 @@ def fam_scalars(W):
         F.add({"value": repr(v)}, lambda v=v: ComplexValue(v))
     # what -ComplexValue(1j) and conj() produce: a zero real part with a sign
     for v in [complex(-0.0, 1.0), complex(-0.0, -1.0), complex(0.0, -1.0)]:
-        F.add({"value": repr(v)}, lambda v=v: ComplexValue(v), tag="signed-zero")
+        # -0.0 == 0.0: these are the same literal as their sign-free twin (identical data)
+        F.add({"value": repr(complex(v.real + 0.0, v.imag + 0.0))}, lambda v=v: ComplexValue(v), tag="signed-zero")
     return F
 
 
